@@ -228,29 +228,29 @@ theorem frame_list_step (W : World) (f : Nat) (ih : FrameAt W f) :
               have f1 := ih.vfor _ _ _ _ _ _ _ _ hs2 h1
               exact hf2.trans (f1.trans (ih.list _ _ _ _ _ (f1.1.nonempty hs2) ho))
             · split at h
-              · obtain ⟨res, st1, h1, hk⟩ := bindR_ok h
-                obtain ⟨o, ho, _⟩ := prepend_ok hk
-                have f1 := ih.slot _ _ _ _ _ _ hs2 h1
-                exact hf2.trans (f1.trans (ih.list _ _ _ _ _ (f1.1.nonempty hs2) ho))
-              · split at h
-                · obtain ⟨ps, h1, hk⟩ := bindE_ok h
-                  split at hk
-                  · exact hf2.trans (ih.list _ _ _ _ _ hs2 hk)
-                  · obtain ⟨res, st1, h2, hk2⟩ := bindR_ok hk
-                    obtain ⟨o, ho, _⟩ := prepend_ok hk2
-                    have f1 := ih.asElem _ _ _ _ _ _ _ hs2 h2
-                    exact hf2.trans (f1.trans (ih.list _ _ _ _ _ (f1.1.nonempty hs2) ho))
+              · obtain ⟨ps, h1, hk⟩ := bindE_ok h
+                split at hk
+                · exact hf2.trans (ih.list _ _ _ _ _ hs2 hk)
+                · obtain ⟨res, st1, h2, hk2⟩ := bindR_ok hk
+                  obtain ⟨o, ho, _⟩ := prepend_ok hk2
+                  have f1 := ih.asElem _ _ _ _ _ _ _ hs2 h2
+                  exact hf2.trans (f1.trans (ih.list _ _ _ _ _ (f1.1.nonempty hs2) ho))
+                · split at hk
                   · split at hk
-                    · split at hk
-                      · exact hf2.trans (ih.list _ _ _ _ _ hs2 hk)
-                      · rename_i st3 hg
-                        have fg := onceGate_frame hg
-                        obtain ⟨res, st1, h2, hk2⟩ := bindR_ok hk
-                        obtain ⟨o, ho, _⟩ := prepend_ok hk2
-                        have hs3 := fg.1.nonempty hs2
-                        have f1 := ih.asElem _ _ _ _ _ _ _ hs3 h2
-                        exact hf2.trans (fg.trans (f1.trans (ih.list _ _ _ _ _ (f1.1.nonempty hs3) ho)))
                     · exact hf2.trans (ih.list _ _ _ _ _ hs2 hk)
+                    · rename_i st3 hg
+                      have fg := onceGate_frame hg
+                      obtain ⟨res, st1, h2, hk2⟩ := bindR_ok hk
+                      obtain ⟨o, ho, _⟩ := prepend_ok hk2
+                      have hs3 := fg.1.nonempty hs2
+                      have f1 := ih.asElem _ _ _ _ _ _ _ hs3 h2
+                      exact hf2.trans (fg.trans (f1.trans (ih.list _ _ _ _ _ (f1.1.nonempty hs3) ho)))
+                  · exact hf2.trans (ih.list _ _ _ _ _ hs2 hk)
+              · split at h
+                · obtain ⟨res, st1, h1, hk⟩ := bindR_ok h
+                  obtain ⟨o, ho, _⟩ := prepend_ok hk
+                  have f1 := ih.slot _ _ _ _ _ _ hs2 h1
+                  exact hf2.trans (f1.trans (ih.list _ _ _ _ _ (f1.1.nonempty hs2) ho))
                 · split at h
                   · obtain ⟨res, st1, h1, hk⟩ := bindR_ok h
                     obtain ⟨o, ho, _⟩ := prepend_ok hk
@@ -285,12 +285,14 @@ theorem frame_asElem_step (W : World) (f : Nat) (ih : FrameAt W f) :
   split at h
   · exact ih.for_ _ _ _ _ _ _ _ _ hs h
   · split at h
+    · exact ih.slot _ _ _ _ _ _ hs h
     · split at h
-      · exact ih.tmpl _ _ _ _ _ _ hs h
-      · have f0 := setTemplateBound_frame W.P attrs st.stack hs
-        have := ih.list _ _ _ _ _ (f0.nonempty hs) h
-        exact (St.frame_of_stack f0).trans this
-    · exact ih.plain _ _ _ _ _ _ _ hs h
+      · split at h
+        · exact ih.tmpl _ _ _ _ _ _ hs h
+        · have f0 := setTemplateBound_frame W.P attrs st.stack hs
+          have := ih.list _ _ _ _ _ (f0.nonempty hs) h
+          exact (St.frame_of_stack f0).trans this
+      · exact ih.plain _ _ _ _ _ _ _ hs h
 
 theorem frame_vfor_step (W : World) (f : Nat) (ih : FrameAt W f) :
     ∀ ctx st tag attrs kids rest out st', st.stack.scopes ≠ [] → evalVFor W (f + 1) ctx st tag attrs kids rest = .ok (out, st') → Frame st st' := by
